@@ -538,6 +538,7 @@ type Req struct {
 	Ctx                    *structpb.Struct
 	Contextual             []*openfgav1.TupleKey
 	HigherConsistency      bool
+	StreamSendDelay        time.Duration // StreamedListObjects only: a slow client
 	Deadline               time.Duration // client-side context deadline (0 = none)
 	Context                context.Context
 }
@@ -830,11 +831,18 @@ type loStream struct {
 	ctx   context.Context
 	mu    sync.Mutex
 	items []string
+	delay time.Duration // a slow client: every Send takes this long
 }
 
 func (s *loStream) Send(r *openfgav1.StreamedListObjectsResponse) error {
 	// like a real gRPC server stream: once the client's context is done (it cancelled or its deadline
 	// passed) sending fails — the handler must then wind down without leaving goroutines behind
+	if s.delay > 0 {
+		select {
+		case <-time.After(s.delay):
+		case <-s.ctx.Done():
+		}
+	}
 	if err := s.ctx.Err(); err != nil {
 		return status.FromContextError(err).Err()
 	}
@@ -858,7 +866,7 @@ func (s *Srv) StreamedListObjects(r Req) ListOutcome {
 func (s *Srv) streamedListObjects(r Req) ListOutcome {
 	ctx, cancel := r.ctx()
 	defer cancel()
-	st := &loStream{ctx: ctx}
+	st := &loStream{ctx: ctx, delay: r.StreamSendDelay}
 	err := Guard(func() error {
 		return s.S.StreamedListObjects(&openfgav1.StreamedListObjectsRequest{
 			StoreId: r.Store, AuthorizationModelId: r.Model, Type: r.Object, Relation: r.Relation, User: r.User,
